@@ -576,9 +576,47 @@ def preauth(ctx, seed):
     return fails
 
 
+AUTH_DEVIATIONS = ['id_data', 'id_type', 'auth_garbage', 'auth_method', 'drop_auth', 'drop_id', 'empty']
+
+
+def deviant_auth(ctx, seed, only=None):
+    """A peer that completed IKE_SA_INIT honestly (it holds the SK_* keys) but whose IKE_AUTH message carries another
+    identity, an AUTH value of zeros, the other AUTH method, or no AUTH / ID payload at all: the side that receives
+    it never reaches ESTABLISHED and installs nothing, in both roles, under PSK and RSA authentication."""
+    from sim.testkeys import RSA
+    fails = []
+    for conf_name, conf in (('psk', {}), ('rsa', {'rsa': list(RSA)})):
+        for side, is_req in (('B', False), ('A', True)):
+            honest = 'A' if side == 'B' else 'B'
+            for name in AUTH_DEVIATIONS:
+                label = f'{conf_name}/{side}/{name}'
+                if only and only != label:
+                    continue
+                rep = {'deviant_auth': label, 'seed': seed}
+                with Pair(seed=seed, **conf) as p:
+                    try:
+                        p.run([['mutate', side, name, 'auth', is_req]] + [list(a) for a in HANDSHAKE] +
+                              [['deliver', 0]] * 4)
+                    except LoopEscape as ex:
+                        fails.append(Failure('property', 'loop:escaped-exception', f'{label}: {ex.exc!r}', rep))
+                        continue
+                    ep = p.ep(honest)
+                    ctx.case({'deviant_auth': label}, nontrivial=True, sample=False)
+                    if not p.dev.applied:
+                        fails.append(Failure('property', 'auth:harness', f'{label}: the deviation was never applied', rep))
+                    est = [int(x.state) for x in ep.controller.ike_sas if int(x.state) >= 10 and int(x.state) != 21]
+                    if est or ep.kernel.sad:
+                        fails.append(Failure('property', 'auth:established-without-valid-auth',
+                                             f'{label}: the {honest} side received an IKE_AUTH message with {name} from a '
+                                             f'peer holding the keys and ended with IKE_SA states {est} and '
+                                             f'{len(ep.kernel.sad)} kernel SA(s)', rep))
+    return fails
+
+
 def oracle(ctx, deep):
     fails = []
     fails += preauth(ctx, ctx.rng.getrandbits(32))
+    fails += deviant_auth(ctx, ctx.rng.getrandbits(32))
     for prf_name in ('sha256', 'sha1', 'sha512'):
         fails += recompute_auth(ctx, ctx.rng.getrandbits(32), prf_name, False)
     fails += recompute_auth(ctx, ctx.rng.getrandbits(32), 'sha256', True)
@@ -602,6 +640,8 @@ def replay(ctx, obj):
         return [f for f in preauth(ctx, obj['seed']) if f.replay.get('preauth') == obj['preauth']]
     if 'mitm' in obj:
         return [f for f in mitm(ctx, obj['seed'], True) if f.replay.get('mitm') == obj['mitm']]
+    if 'deviant_auth' in obj:
+        return deviant_auth(ctx, obj['seed'], only=obj['deviant_auth'])
     return []
 
 
